@@ -1493,7 +1493,11 @@ class Interp:
         if p == "erf_inv" or p == "lgamma" or p == "digamma" or p == "erf" or p == "erfc" or p == "tan" or p == "sin" or p == "cos" or p == "igamma" or p == "random_gamma_grad":
             f = ctx.ufun("UF_" + p, *([z3.RealSort()] * (len(ins) + 1)))
             return E(lift_fin(lambda *a: f(*[toreal(x) for x in a])))
-        if p in ("random_bits", "random_split", "random_wrap", "random_unwrap", "random_fold_in", "random_seed",
+        if p in ("random_wrap", "random_unwrap"):
+            return ins[0]     # key arrays are represented by their raw uint32[..., 2] data
+        if p in ("random_bits", "random_split", "random_fold_in"):
+            return self._random(e, ins)
+        if p in ("random_seed",
                  "threefry2x32", "random_clone", "shift_right_logical", "shift_left", "bitcast_convert_type",
                  "population_count", "erf_inv", "random_gamma", "nextafter", "shift_right_arithmetic", "clz"):
             return self._opaque(e, ins)
@@ -1521,10 +1525,65 @@ class Interp:
             return vals
         raise Unsupported("error_if layout")
 
+    def _random(self, e, ins):
+        """PRNG primitives are elementwise over leading key-batch dimensions (as under vmap): one uninterpreted function per
+        output position, applied to the two words of EACH key (same key => same bits, different slots => different functions)"""
+        p = e.primitive.name
+        ctx = self.ctx
+        keys = ins[0]
+        kb = keys.shape[:-1]
+        extra = [split(v)[0] for a in ins[1:] for v in a.ravel()]
+        if p == "random_split":
+            oshape = tuple(e.params["shape"])
+            words = 2
+        elif p == "random_bits":
+            oshape = tuple(e.params["shape"])
+            words = 1
+        else:
+            oshape = ()
+            words = 2
+        out = np.empty(kb + oshape + ((2,) if words == 2 else ()), dtype=object)
+        tag = f"{p}_{e.params.get('bit_width', '')}_{'x'.join(map(str, oshape))}"
+        for bi in np.ndindex(kb):
+            k0, k1 = (toz(split(v)[0]) for v in keys[bi])
+            args = [k0, k1] + [toz(x) if not isinstance(x, Fraction) else toreal(x) for x in (extra if p == "random_fold_in" else [])]
+            for oi in np.ndindex(oshape):
+                for w in range(words):
+                    f = ctx.ufun(f"UF_{tag}_{'_'.join(map(str, oi))}_{w}", *([a.sort() for a in args] + [z3.IntSort()]))
+                    idx = bi + oi + ((w,) if words == 2 else ())
+                    out[idx] = f(*args)
+        return out
+
     def _opaque(self, e, ins):
         """uninterpreted function of the flattened inputs, one fresh UF per (primitive, params, output position)"""
         p = e.primitive.name
         ctx = self.ctx
+        ELEMENTWISE = ("shift_right_logical", "shift_left", "shift_right_arithmetic", "and", "or", "xor", "not", "population_count", "clz", "nextafter", "bitcast_convert_type")
+        if p in ELEMENTWISE and len(e.outvars) == 1:
+            oshape = _aval_shape(e.outvars[0].aval)
+            try:
+                bins = np.broadcast_arrays(*[np.asarray(a, dtype=object) for a in ins])
+                elementwise = tuple(bins[0].shape) == tuple(oshape)
+            except ValueError:
+                elementwise = False
+            if elementwise:
+                pk = str(sorted((k, str(v)) for k, v in e.params.items()))
+                isint = not np.issubdtype(_aval_dtype(e.outvars[0].aval), np.floating)
+                rs = z3.IntSort() if isint else z3.RealSort()
+                out = np.empty(oshape, dtype=object)
+                for idx in np.ndindex(tuple(oshape)):
+                    args = []
+                    for b_ in bins:
+                        t = split(b_[idx])[0]
+                        zt = toz(t) if not isinstance(t, Fraction) else toreal(t)
+                        if z3.is_bool(zt):
+                            zt = z3.If(zt, z3.IntVal(1), z3.IntVal(0))
+                        args.append(zt)
+                    if all(znum(a_) is not None for a_ in args) and False:
+                        pass
+                    f = ctx.ufun(f"UF_{p}_{abs(hash(pk)) % 10**8}_ew", *([a_.sort() for a_ in args] + [rs]))
+                    out[idx] = f(*args)
+                return [out]
         flat = []
         for a in ins:
             for v in a.ravel():
